@@ -42,9 +42,13 @@ def detect_scratch(sd, prop, tier="quick", base=os.environ.get("MUTLAB", "/tmp/m
         rc, o = sh("git -C /repo worktree add -q --detach %s HEAD" % wt)
         if rc != 0:
             print("cannot create worktree:", o); return None
-    sh("git checkout -q --detach $(git -C /repo rev-parse HEAD) && git checkout -q -- . && git clean -fdq -e target", cwd=wt)
+    sh("git reset -q --hard; git checkout -q --detach $(git -C /repo rev-parse HEAD) && git checkout -q -- . && git clean -fdq -e target", cwd=wt)
+    sd = os.path.abspath(sd)
     rc, o = sh("git apply %s/patch.diff" % sd, cwd=wt)
+    if rc != 0:          # the archived patch was cut against an earlier HEAD (later fix: commits moved its context): merge it
+        rc, o = sh("git apply -3 %s/patch.diff && git reset -q" % sd, cwd=wt)
     if rc != 0:
+        sh("git reset -q --hard", cwd=wt)
         print("patch does not apply:", o); return None
     vz = base + "/verif"          # optional frozen copy of /verif (seedtool.py snapshot), so that /verif can be edited meanwhile
     src = vz if os.path.isdir(vz) else "/verif"
